@@ -35,7 +35,7 @@ def gen(rng, tier):
     for i in range(n):
         ins.append({"end": rng.choice(["val", "val", "val", "val", "exc", "cancel", "never"]) if not big else "val",
                     "at": rng.choice([None, 0, 0, 0.05, 0.1]), "by": rng.randrange(3),
-                    "lib": (not big) and rng.random() < 0.2, "cerr": (not big) and rng.random() < 0.15})
+                    "lib": (not big) and rng.random() < 0.2, "cerr": (not big) and rng.random() < 0.15, "falsy_exc": (not big) and rng.random() < 0.12})
     spec = {"comb": comb, "ins": ins, "dup": (rng.randrange(n), rng.randrange(n)) if n >= 2 and rng.random() < 0.2 and not big else None,
             "gen_input": rng.random() < 0.5, "fn_raise_at": rng.choice([None, None, None, 0, 1, 2]) if comb == "traverse" else None,
             "cancel_at": rng.choice([None, None, None, 0, 0.05]), "settle": 5.0,
@@ -61,7 +61,7 @@ def run(spec, env):
             results[i] = ["r", i]
         elif inp["end"] == "exc":
             # (an input that FAILED WITH a CancelledError instance is failed, not cancelled)
-            results[i] = CancelledError() if inp.get("cerr") else env.exc(("in", i))
+            results[i] = CancelledError() if inp.get("cerr") else env.exc(("in", i), "FalsyErr" if inp.get("falsy_exc") else "ScriptedError")
     env.objs["results"] = results
 
     def complete(i):
